@@ -2240,3 +2240,146 @@ func c09r15(rc *core.RC) {
 		rc.Unknown("decoder/method-twins", token.NoPos, "found %d decoder types with both Decode and DecodeStream (confirmed: 20)", n)
 	}
 }
+
+// ---- C09.R16 a decision on the current stream byte is taken behind the refill ----
+
+// In stream mode the window ends with a NUL that stands for "more input may follow": a byte read with s.char() can
+// be that terminator. s.skipWhiteSpace() refills at the terminator and returns a real byte (or NUL at the true end).
+// Where a stream decoder decides on the current byte with an `if` (is it the 'n' of null, a quote, a bracket) the
+// byte compared has to come from skipWhiteSpace: its result, or s.char() directly behind a skipWhiteSpace call. A
+// fast path that reads s.char() first and calls skipWhiteSpace only for white space takes the terminator for "not
+// null": a pointer member whose null starts a new window is allocated where buffer mode stores nil.
+func c09r16(rc *core.RC) {
+	p := rc.P
+	n := 0
+	for _, fd := range p.Funcs("decoder") {
+		if fd.Body == nil {
+			continue
+		}
+		info := p.Info(fd)
+		fn := p.FuncName(fd)
+		isStreamCall := func(e ast.Expr, name string) bool {
+			c, ok := core.Unparen(e).(*ast.CallExpr)
+			return ok && core.CalleeName(info, c) == "decoder.Stream."+name
+		}
+		// definitions of byte variables
+		defs := map[types.Object][]ast.Expr{}
+		defPos := map[ast.Expr]*ast.AssignStmt{}
+		ast.Inspect(fd.Body, func(m ast.Node) bool {
+			as, ok := m.(*ast.AssignStmt)
+			if !ok || len(as.Lhs) != len(as.Rhs) {
+				return true
+			}
+			for i, l := range as.Lhs {
+				if o := core.ObjOf(info, l); o != nil {
+					defs[o] = append(defs[o], as.Rhs[i])
+					defPos[as.Rhs[i]] = as
+				}
+			}
+			return true
+		})
+		// charBehindSkip: the s.char() call at node stands directly behind a statement that calls skipWhiteSpace (same
+		// block, nothing in between but the statement itself)
+		charBehindSkip := func(at ast.Node) bool {
+			path := core.PathTo(fd.Body, at)
+			for i := len(path) - 1; i >= 1; i-- {
+				if _, isClause := path[i].(*ast.CaseClause); isClause {
+					continue // sibling clauses are alternatives, not predecessors
+				}
+				var list []ast.Stmt
+				switch c := path[i-1].(type) {
+				case *ast.BlockStmt:
+					list = c.List
+				case *ast.CaseClause:
+					list = c.Body
+				default:
+					continue
+				}
+				for j, st := range list {
+					if ast.Node(st) != path[i] {
+						continue
+					}
+					if j == 0 {
+						break // first statement of its list: what precedes the enclosing statement counts
+					}
+					found := false
+					ast.Inspect(list[j-1], func(m ast.Node) bool {
+						if e, isE := m.(ast.Expr); isE && isStreamCall(e, "skipWhiteSpace") {
+							found = true
+						}
+						return true
+					})
+					return found
+				}
+			}
+			return false
+		}
+		var fromSkip func(e ast.Expr, at ast.Node, depth int) (bool, string)
+		fromSkip = func(e ast.Expr, at ast.Node, depth int) (bool, string) {
+			e = core.Unparen(e)
+			switch {
+			case isStreamCall(e, "skipWhiteSpace"):
+				return true, ""
+			case isStreamCall(e, "char"):
+				if charBehindSkip(at) {
+					return true, ""
+				}
+				return false, "s.char() that does not stand behind a skipWhiteSpace call"
+			}
+			if id, ok := e.(*ast.Ident); ok && depth < 3 {
+				ds := defs[core.ObjOf(info, id)]
+				if len(ds) == 0 {
+					return false, id.Name + " (no definition found)"
+				}
+				for _, d := range ds {
+					if ok2, why := fromSkip(d, defPos[d], depth+1); !ok2 {
+						return false, id.Name + " = " + why
+					}
+				}
+				return true, ""
+			}
+			return false, core.Src(p.Fset, e)
+		}
+		k := 0
+		ast.Inspect(fd.Body, func(m ast.Node) bool {
+			ifs, ok := m.(*ast.IfStmt)
+			if !ok {
+				return true
+			}
+			for _, cj := range append(conjuncts(ifs.Cond), disjuncts(ifs.Cond)...) {
+				be, isBin := core.Unparen(cj).(*ast.BinaryExpr)
+				if !isBin || (be.Op != token.EQL && be.Op != token.NEQ) {
+					continue
+				}
+				v, isC := core.ConstInt(info, be.Y)
+				if !isC || v == 0 || v > 127 {
+					continue
+				}
+				// the left side is the current stream byte?
+				x := core.Unparen(be.X)
+				isByte := isStreamCall(x, "char") || isStreamCall(x, "skipWhiteSpace")
+				if id, isID := x.(*ast.Ident); isID {
+					for _, d := range defs[core.ObjOf(info, id)] {
+						if isStreamCall(d, "char") || isStreamCall(d, "skipWhiteSpace") {
+							isByte = true
+						}
+					}
+				}
+				if !isByte {
+					continue
+				}
+				k++
+				n++
+				rc.Touch(fn)
+				key := fmt.Sprintf("%s/byte-decision#%d behind-the-refill", fn, k)
+				ok2, why := fromSkip(x, ifs, 0)
+				rc.Check(ok2, key, be.Pos(), "the byte compared with %q comes from skipWhiteSpace, which refills the window at its terminator%s", rune(v), map[bool]string{true: "", false: "; here it can be " + why + ": at the end of a window that is the NUL terminator, the comparison fails, and a value that begins in the next window is taken for something else"}[ok2])
+				break
+			}
+			return true
+		})
+	}
+	if n < 4 {
+		rc.Unknown("decoder/stream-byte-decisions", token.NoPos, "found %d if-decisions on the current stream byte (confirmed: 4)", n)
+	}
+}
